@@ -1984,3 +1984,275 @@ func init() {
 	registry["C18"].Meta.Rules["C18.12"] = "a guarded field is updated from what is read in the same hold of the lock: no store to a receiver field under the mutex takes a value computed from the result of a method of the same receiver that acquires that mutex itself (stats := sr.GetStats(); ...; Lock; sr.stats = stats loses the evaluation another goroutine counted in between)"
 	registry["C18"].Rules = append(registry["C18"].Rules, func(c *Ctx, r *Result) { rmwOneHoldRule(c, r, "C18.12", 20) })
 }
+
+// ---- selection arithmetic is dimensionally consistent (C09.15) ----
+//
+// A coordinate of a hyperslab selection is Start[d] + c*Stride[d] + b with c < Count[d] and b < Block[d]; the last selected
+// coordinate is Start[d] + (Count[d]-1)*Stride[d] + Block[d] - 1. In the functions that do this arithmetic: (R1) a product
+// whose one factor is Count[d]-1, or a loop counter bounded by Count[d], has Stride[d] as its other factor - the same field, the
+// same dimension; (R2) a loop counter bounded by Block[d] is added to an expression over Start[d'] only with d' = d; (R3) in a
+// sum, Start[d] stands with Stride[d]. A dimension is a constant index or one index variable.
+
+type selRef struct {
+	field string
+	idx   string // constant or SSA name of the index value
+}
+
+func selFieldRef(v ssa.Value) (selRef, bool) {
+	u, ok := stripConv(v).(*ssa.UnOp)
+	if !ok || u.Op != token.MUL {
+		return selRef{}, false
+	}
+	ia, ok := u.X.(*ssa.IndexAddr)
+	if !ok {
+		return selRef{}, false
+	}
+	k, _ := fieldLoadKey(ia.X)
+	if !strings.HasPrefix(k, "hdf5.HyperslabSelection.") {
+		return selRef{}, false
+	}
+	idx := ""
+	if c, isC := constInt(ia.Index); isC {
+		idx = fmt.Sprint(c)
+	} else {
+		idx = stripConv(ia.Index).Name()
+	}
+	return selRef{lastSeg(k), idx}, true
+}
+
+func selectionArithmeticRule(c *Ctx, r *Result, rule string) {
+	n := 0
+	for _, fn := range c.LibFuncs() {
+		if shortPkg(fnPkgPath(fn)) != "hdf5" || fn.Blocks == nil {
+			continue
+		}
+		// loop counters and the selection field that bounds them
+		bound := map[ssa.Value]selRef{}
+		for _, h := range fn.Blocks {
+			ifi, ok := h.Instrs[len(h.Instrs)-1].(*ssa.If)
+			if !ok {
+				continue
+			}
+			cmp, ok := ifi.Cond.(*ssa.BinOp)
+			if !ok || cmp.Op != token.LSS {
+				continue
+			}
+			phi, ok := cmp.X.(*ssa.Phi)
+			if !ok || phi.Block() != h {
+				continue
+			}
+			if ref, ok := selFieldRef(cmp.Y); ok {
+				bound[phi] = ref
+			}
+		}
+		k := 0
+		report := func(ok bool, at ssa.Instruction, what string) {
+			n++
+			k++
+			r.Check(ok, rule, fmt.Sprintf("%s#selection-arithmetic-%d", c.Name(fn), k), c.InstrPos(at), what)
+		}
+		// countLike: Count[d]-1 or a counter bounded by Count[d]
+		countLike := func(v ssa.Value) (selRef, bool) {
+			v = stripConv(v)
+			if ref, ok := bound[v]; ok && ref.field == "Count" {
+				return ref, true
+			}
+			if bo, ok := v.(*ssa.BinOp); ok && bo.Op == token.SUB {
+				if one, isK := constInt(bo.Y); isK && one == 1 {
+					if ref, ok := selFieldRef(bo.X); ok && ref.field == "Count" {
+						return ref, true
+					}
+				}
+			}
+			return selRef{}, false
+		}
+		var flatten func(v ssa.Value, out []ssa.Value, d int) []ssa.Value
+		flatten = func(v ssa.Value, out []ssa.Value, d int) []ssa.Value {
+			if bo, ok := stripConv(v).(*ssa.BinOp); ok && d < 8 && (bo.Op == token.ADD || (bo.Op == token.SUB && func() bool { _, isK := constInt(bo.Y); return isK }())) {
+				out = flatten(bo.X, out, d+1)
+				if bo.Op == token.ADD {
+					out = flatten(bo.Y, out, d+1)
+				}
+				return out
+			}
+			return append(out, stripConv(v))
+		}
+		instrs(fn, func(in ssa.Instruction) {
+			bo, ok := in.(*ssa.BinOp)
+			if !ok {
+				return
+			}
+			switch bo.Op {
+			case token.ADD, token.SUB:
+				if bo.Op == token.SUB {
+					if _, isK := constInt(bo.Y); !isK {
+						return
+					}
+				}
+				// only the root of a sum
+				isRoot := true
+				for _, ref := range *bo.Referrers() {
+					if p, isB := ref.(*ssa.BinOp); isB && (p.Op == token.ADD || p.Op == token.SUB) {
+						isRoot = false
+					}
+				}
+				if !isRoot {
+					return
+				}
+				terms := flatten(bo, nil, 0)
+				var start *selRef
+				for _, t := range terms {
+					if ref, ok := selFieldRef(t); ok && ref.field == "Start" {
+						ref := ref
+						start = &ref
+					}
+				}
+				if start == nil {
+					return
+				}
+				for _, t := range terms {
+					if ref, ok := bound[t]; ok && ref.field == "Block" {
+						report(ref.idx == start.idx, bo, fmt.Sprintf("the offset inside a block added to Start[%s] runs to Block[%s] (found Block[%s])", start.idx, start.idx, ref.idx))
+					}
+					if m, isM := t.(*ssa.BinOp); isM && m.Op == token.MUL {
+						// R1: in a dataset coordinate (a sum over Start) a count of blocks multiplies the stride
+						for _, pair := range [][2]ssa.Value{{m.X, m.Y}, {m.Y, m.X}} {
+							cref, isCount := countLike(pair[0])
+							if !isCount {
+								continue
+							}
+							if other, isSel := selFieldRef(pair[1]); isSel && other.field != "Stride" {
+								report(false, bo, fmt.Sprintf("in a coordinate over Start[%s] a count of blocks multiplies Stride[%s] (found %s[%s]): blocks are Stride apart, whatever their length", start.idx, cref.idx, other.field, other.idx))
+							} else if isSel {
+								report(other.idx == cref.idx, bo, fmt.Sprintf("a count of blocks in dimension %s multiplies Stride[%s] (found Stride[%s])", cref.idx, cref.idx, other.idx))
+							}
+						}
+						for _, f := range []ssa.Value{m.X, m.Y} {
+							if ref, ok := selFieldRef(f); ok && ref.field == "Stride" {
+								report(ref.idx == start.idx, bo, fmt.Sprintf("Start[%s] is advanced by multiples of Stride[%s] (found Stride[%s])", start.idx, start.idx, ref.idx))
+							}
+						}
+					}
+				}
+			}
+		})
+	}
+	if n < 8 {
+		r.Shortfall(c, rule, fmt.Sprintf("%s: only %d selection-arithmetic obligations found (expected >= 8)", rule, n))
+	}
+}
+
+func init() {
+	registry["C09"].Meta.Rules["C09.15"] = "selection arithmetic keeps to one dimension and to the right field: in a dataset coordinate (a sum over Start[d]) a product with Count[d]-1 or with a counter bounded by Count[d] has Stride[d] as its other factor; a counter bounded by Block[d] is added to Start[d] of the same d; Start[d] is advanced by multiples of Stride[d] (Block[0] for Block[1] in the column loop of the 2-D reader copies the wrong number of columns; (Count-1)*Block for (Count-1)*Stride ends the chunk search before the last selected chunk)"
+	registry["C09"].Rules = append(registry["C09"].Rules, func(c *Ctx, r *Result) { selectionArithmeticRule(c, r, "C09.15") })
+	registry["C09"].Meta.Rules["C09.14"] = registry["C01"].Meta.Rules["C01.1"] + " (shared with C01.1: the hyperslab readers convert through the same functions)"
+	registry["C09"].Rules = append(registry["C09"].Rules, func(c *Ctx, r *Result) { c01signReaders(c, r, "C09.14") })
+}
+
+func init() {
+	registry["C02"].Meta.Rules["C02.12"] = "dense attributes get heap IDs that address them: the width test of the heap ID's offset field compares with < (or >=) against 1<<bits (shared with C15.7: with <= the write that fills the 64 KiB block exactly reports success and its ID wraps to the first attribute)"
+	registry["C02"].Rules = append(registry["C02"].Rules, func(c *Ctx, r *Result) { heapWidthTestRule(c, r, "C02.12") })
+	scope := func(n string) bool {
+		for _, p := range []string{"core.ObjectHeaderWriter.", "core.EncodeAttribute", "core.WriteObjectHeader", "core.RewriteObjectHeader", "hdf5.encodeAttributeValue", "hdf5.encodeSliceValue", "hdf5.writeCompactAttribute", "hdf5.writeDenseAttribute", "hdf5.upsertAttributeMessage", "core.AddMessageToObjectHeader", "core.ModifyDenseAttribute", "core.ModifyCompactAttribute"} {
+			if strings.HasPrefix(n, p) {
+				return true
+			}
+		}
+		return false
+	}
+	registry["C02"].Meta.Rules["C02.13"] = "sizes written into the narrow fields of an object header fit them: narrowing conversions in the header writer and the attribute encoders are proven to fit (and to be non-negative) or frozen per function (C05.11 restricted to this code: a header chunk of exactly 256 bytes must be refused, byte(256) is 0 and the header then parses as empty)"
+	registry["C02"].Rules = append(registry["C02"].Rules, func(c *Ctx, r *Result) { narrowingRuleScoped(c, r, "C02.13", scope) })
+}
+
+// ---- a dense attribute is replaced by an encoded attribute message (C02.14 / C10.11) ----
+//
+// ModifyDenseAttribute stores newAttr.Data into the heap as it is ("caller must encode"). At every call the attribute handed
+// over has had its Data set, on every path, to the result of core.EncodeAttributeMessage - the same bytes the insert path
+// stores. Without that store the heap object holds the bare value; the next parse fails, the error is swallowed by the
+// attribute reader and all attributes of the object seem to be gone.
+func denseModifyEncodedRule(c *Ctx, r *Result, rule string) {
+	n := 0
+	for _, fn := range c.LibFuncs() {
+		for _, site := range callsIn(fn) {
+			if c.calleeName(site) != "core.ModifyDenseAttribute" {
+				continue
+			}
+			args := site.Common().Args
+			attr := args[len(args)-1]
+			n++
+			in := site.(ssa.Instruction)
+			encoded := func(v ssa.Value) bool {
+				seen := map[ssa.Value]bool{}
+				var walk func(v ssa.Value) bool
+				walk = func(v ssa.Value) bool {
+					if seen[v] {
+						return true
+					}
+					seen[v] = true
+					switch x := v.(type) {
+					case *ssa.Extract:
+						call, ok := x.Tuple.(*ssa.Call)
+						return ok && x.Index == 0 && strings.HasPrefix(c.calleeName(call), "core.EncodeAttribute")
+					case *ssa.Call:
+						return strings.HasPrefix(c.calleeName(x), "core.EncodeAttribute")
+					case *ssa.Phi:
+						for _, e := range x.Edges {
+							if !walk(e) {
+								return false
+							}
+						}
+						return true
+					case *ssa.Parameter:
+						// the encoded message handed down by the caller: every caller passes an encoded message
+						idx := paramIndex(fn, x)
+						node := c.CG.Nodes[fn]
+						if node == nil || len(node.In) == 0 {
+							return false
+						}
+						for _, e := range node.In {
+							if e.Site == nil || idx >= len(e.Site.Common().Args) {
+								return false
+							}
+							a := e.Site.Common().Args[idx]
+							ex, isEx := a.(*ssa.Extract)
+							if !isEx {
+								return false
+							}
+							call, isCall := ex.Tuple.(*ssa.Call)
+							if !isCall || !strings.HasPrefix(c.calleeName(call), "core.EncodeAttribute") {
+								return false
+							}
+						}
+						return true
+					}
+					return false
+				}
+				return walk(v)
+			}
+			ok := mustPrecede(in, func(x ssa.Instruction) bool {
+				st, isSt := x.(*ssa.Store)
+				if !isSt {
+					return false
+				}
+				fa, isFA := st.Addr.(*ssa.FieldAddr)
+				if !isFA || fa.X != attr {
+					return false
+				}
+				f, _ := fieldOfAddr(fa)
+				return f != nil && f.Name() == "Data" && encoded(st.Val)
+			})
+			r.CheckMissing(c, fn, ok, rule, c.Name(fn)+"#dense-attribute-replaced-by-encoded-message", c.InstrPos(in), "on every path to ModifyDenseAttribute the attribute's Data was set to the result of EncodeAttributeMessage (ModifyDenseAttribute stores Data as it is)")
+		}
+	}
+	if n < 2 {
+		r.Shortfall(c, rule, fmt.Sprintf("%s: only %d calls of core.ModifyDenseAttribute found", rule, n))
+	}
+}
+
+func init() {
+	txt := "a dense attribute is replaced by an encoded attribute message: at every call of core.ModifyDenseAttribute the attribute handed over has had its Data set, on every path, to the result of EncodeAttributeMessage (the callee stores Data as it is; with the bare value in the heap the next parse fails, the reader swallows the error and all attributes of the object are gone)"
+	registry["C02"].Meta.Rules["C02.14"] = txt
+	registry["C02"].Rules = append(registry["C02"].Rules, func(c *Ctx, r *Result) { denseModifyEncodedRule(c, r, "C02.14") })
+	registry["C10"].Meta.Rules["C10.11"] = txt + " (shared with C02.14; one of the two call sites serves the reopened handles)"
+	registry["C10"].Rules = append(registry["C10"].Rules, func(c *Ctx, r *Result) { denseModifyEncodedRule(c, r, "C10.11") })
+}
